@@ -371,9 +371,28 @@ func (set *Set) add(hosts ...*Host) {
 		return
 	}
 	for _, host := range hosts {
+		// a stored host with the same address is replaced: drop its healthy
+		// entry, which lives in the other tier when the type has changed.
+		if old, ok := set.all[host.Addr]; ok && old != host {
+			set.dropHealthy(old)
+		}
 		set.all[host.Addr] = host
+		// a host that is currently marked unhealthy becomes usable when the
+		// health check marks it healthy again.
+		if host.IsHealthy() {
+			set.addToHealthy(host)
+		}
 	}
-	set.addToHealthy(hosts...)
+	set.buildHealthyCache()
+}
+
+func (set *Set) dropHealthy(h *Host) {
+	switch h.Type {
+	case TypeMain:
+		delete(set.healthyMain, h.Addr)
+	case TypeBackup:
+		delete(set.healthyBackup, h.Addr)
+	}
 }
 
 // Remove removes host from the set.
@@ -388,7 +407,13 @@ func (set *Set) remove(hosts ...*Host) {
 		return
 	}
 	for _, host := range hosts {
-		delete(set.all, host.Addr)
+		// the caller may pass an equal host rather than the stored object:
+		// it is the stored one that connections are watching.
+		if stored, ok := set.all[host.Addr]; ok {
+			delete(set.all, host.Addr)
+			stored.markRemoved()
+			set.dropHealthy(stored)
+		}
 		host.markRemoved()
 	}
 	set.removeFromHealthy(hosts...)
@@ -401,7 +426,8 @@ func (set *Set) MarkHostHealthy(host *Host) bool {
 	}
 	set.Lock()
 	defer set.Unlock()
-	if _, ok := set.all[host.Addr]; !ok {
+	// a removed host whose address has been added again is another object.
+	if stored, ok := set.all[host.Addr]; !ok || stored != host {
 		return false
 	}
 	set.addToHealthy(host)
@@ -415,7 +441,8 @@ func (set *Set) MarkHostUnhealthy(host *Host) bool {
 	}
 	set.Lock()
 	defer set.Unlock()
-	if _, ok := set.all[host.Addr]; !ok {
+	// a removed host whose address has been added again is another object.
+	if stored, ok := set.all[host.Addr]; !ok || stored != host {
 		return false
 	}
 	set.removeFromHealthy(host)
